@@ -360,6 +360,11 @@ fn run_removal(ev: u64, both_learned: bool, trace: bool) -> CaseResult {
             table.retain(|i| i.index != IF1);
             w.ds[0].ctl.set_intfs(table.clone());
         }
+        7 => {
+            // both interfaces disappear between two checks
+            table.clear();
+            w.ds[0].ctl.set_intfs(table.clone());
+        }
         2 => {
             w.ds[0].h.disable_interface("sim1").unwrap();
             w.poke(0);
@@ -391,9 +396,18 @@ fn run_removal(ev: u64, both_learned: bool, trace: bool) -> CaseResult {
     }
     w.advance(1000);
     let evs: Vec<(u64, BEv)> = bevs(&w, 0, ch, lix);
-    let tag = ["interface-gone", "interface-gone-and-back", "disable-by-name", "disable-ipv4", "disable-indexv4", "address-moved-to-other-subnet", "last-enabled-address-gone-disabled-family-stays"][ev as usize];
+    let tag = ["interface-gone", "interface-gone-and-back", "disable-by-name", "disable-ipv4", "disable-indexv4", "address-moved-to-other-subnet", "last-enabled-address-gone-disabled-family-stays", "two-interfaces-gone-at-once"][ev as usize];
     res.count("removal_cases_checked", 1);
     // instance learned only on the removed interface
+    if ev == 7 {
+        // every instance, whichever interface it was learned on
+        for i in [&ia, &ib] {
+            res.count("removals_after_two_interfaces_went_checked", 1);
+            if !evs.iter().any(|(_, e)| matches!(e, BEv::Removed(_, f) if *f == i.fullname())) {
+                res.viols.push(viol(format!("C18|no-ServiceRemoved-for-instance-learned-only-on-the-removed-interface|{tag}"), format!("{}: events after the change: {:?}", i.fullname(), evs.iter().map(|(t, e)| (t - T0, format!("{e:?}"))).collect::<Vec<_>>())));
+            }
+        }
+    }
     if matches!(ev, 0 | 1 | 6) {
         if !evs.iter().any(|(_, e)| matches!(e, BEv::Removed(_, f) if *f == ia.fullname())) {
             res.viols.push(viol(format!("C18|no-ServiceRemoved-for-instance-learned-only-on-the-removed-interface|{tag}"), format!("events after the change: {:?}", evs.iter().map(|(t, e)| (t - T0, format!("{e:?}"))).collect::<Vec<_>>())));
@@ -433,6 +447,7 @@ fn run_removal(ev: u64, both_learned: bool, trace: bool) -> CaseResult {
         0 | 1 | 2 => ["10.0.1.1".parse().unwrap(), "fd00:1::1".parse().unwrap()].into_iter().collect(),
         3 => ["10.0.0.1".parse().unwrap(), "10.0.1.1".parse().unwrap()].into_iter().collect(),
         4 | 5 | 6 => ["10.0.1.1".parse().unwrap()].into_iter().collect(),
+        7 => ["10.0.0.1".parse().unwrap(), "10.0.1.1".parse().unwrap(), "fd00:1::1".parse().unwrap()].into_iter().collect(),
         _ => BTreeSet::new(),
     };
     if dels != want_del {
@@ -869,10 +884,10 @@ pub fn check(tier: &str) -> i32 {
     rep.run_part(&sub, Duration::from_secs(120));
     let rem = FnPart {
         name: "interface-removal-and-disabling".into(),
-        rule: "browse + hostname resolver; one instance learned only on sim1, one on sim0 (optionally with a second address learned on sim1); then sim1 disappears / disappears and returns / is disabled by name / IPv4 is disabled / IndexV4 is disabled / its address moves to another subnet / (IPv6 disabled from the start) it loses its IPv4 address and keeps the IPv6 one".into(),
-        n: 14,
-        describe: Box::new(|i| format!("event {} both_learned {}", i % 7, i / 7 == 1)),
-        run: Box::new(|i, tr| run_removal(i % 7, i / 7 == 1, tr)),
+        rule: "browse + hostname resolver; one instance learned only on sim1, one on sim0 (optionally with a second address learned on sim1); then sim1 disappears / disappears and returns / is disabled by name / IPv4 is disabled / IndexV4 is disabled / its address moves to another subnet / (IPv6 disabled from the start) it loses its IPv4 address and keeps the IPv6 one / both interfaces disappear between two checks (every instance must be reported removed)".into(),
+        n: 16,
+        describe: Box::new(|i| format!("event {} both_learned {}", i % 8, i / 8 == 1)),
+        run: Box::new(|i, tr| run_removal(i % 8, i / 8 == 1, tr)),
     };
     rep.run_part(&rem, Duration::from_secs(120));
     let ddims = [3u64, 2, 3, DC_EVENTS.len() as u64];
